@@ -15,14 +15,17 @@ int main(int argc, char** argv) {
     unsigned long long seed = std::strtoull(argv[1], 0, 10); int ncases = std::atoi(argv[2]); int only = argc > 3 ? std::atoi(argv[3]) : -1;
     Rng r(seed);
     for (int k = 0; k < ncases; ++k) {
-        int kind = only >= 0 ? only : (k % K_NKINDS); int pair = r.I(0, 7); bool onman = (k / K_NKINDS) % 3 == 2;
+        // modelled kinds: the 13 first-wave kinds and SphereOnPlaneContact (+rolling), SphereOnSphereContact (+rolling), PointOnPlaneContact
+        const int NMODEL = K_POP + 1;
+        static const int PAIRS[] = {0, 1, 2, 3, 4, 5, 6, 7, 0, 5, 6};      // second wave: more pairs with both bodies moving and rotating
+        int kind = only >= 0 ? only : (k % NMODEL); int pair = kind >= K_NKINDS ? PAIRS[r.I(0, 10)] : r.I(0, 7); bool onman = (k / NMODEL) % 3 == 2;
         try {
-            ConSystem cs; cs.buildTree(r, onman || kind == K_WELD);
+            ConSystem cs; cs.buildTree(r, onman || kind == K_WELD || kind >= K_NKINDS);
             // every other round a second, one-row mobility constraint shares the system (added before or after the main one) so that
             // the main constraint's rows sit at an offset inside G / the error vectors (row assembly: holonomic, nonholonomic, acc-only blocks)
-            int extra = (k / K_NKINDS) % 2 == 1 ? r.I(1, 2) : 0; int extraKind = r.I(0, 1) ? K_CCOORD : K_CSPEED;
+            int extra = (k / NMODEL) % 2 == 1 ? r.I(1, 2) : 0; int extraKind = r.I(0, 1) ? K_CCOORD : K_CSPEED;
             if (extra == 1) cs.addMobilityConstraint(r, extraKind);
-            ConDesc d = kind <= K_NOSLIP ? cs.addBodyConstraint(r, kind, pair) : cs.addMobilityConstraint(r, kind);
+            ConDesc d = isBodyKind(kind) ? cs.addBodyConstraint(r, kind, pair) : cs.addMobilityConstraint(r, kind);
             if (extra == 2) cs.addMobilityConstraint(r, extraKind);
             cs.finish(r);
             State& s = cs.state; const SimbodyMatterSubsystem& m = cs.matter;
@@ -44,9 +47,17 @@ int main(int argc, char** argv) {
             std::printf("CASE %d %d %s pair %d onman %d euler %d nu %d nq %d m %d %d %d types %d %d %d %d extra %d rowoffset %d\n", k, kind, CKNAMES[kind], pair, (int)onman, (int)cs.euler,
                         nu, nq, mp, mv, ma, cs.types[0], cs.types[1], cs.types[2], cs.types[3], extra, mm ? rowsOfMain[0] : 0);
             std::printf("TINY %a\n", (double)TinyReal);
+            if (kind == K_SOSR) {      // the contact-frame axes the implementation derives from the centre-to-centre direction (ensurePositionCacheRealized)
+                const MobilizedBody& A = c.getAncestorMobilizedBody();
+                const Transform X_AF = ~A.getBodyTransform(s) * m.getMobilizedBody(MobilizedBodyIndex(d.roles[0])).getBodyTransform(s);
+                const Transform X_AB = ~A.getBodyTransform(s) * m.getMobilizedBody(MobilizedBodyIndex(d.roles[1])).getBodyTransform(s);
+                const Vec3 sF(d.par[0], d.par[1], d.par[2]), sB(d.par[3], d.par[4], d.par[5]);
+                const Vec3 pSfSb = X_AB * sB - X_AF * sF; Rotation RC; RC.setRotationFromOneAxis(UnitVec3(pSfSb), ZAxis);
+                push3(d.par, Vec3(RC.x())); push3(d.par, Vec3(RC.y()));
+            }
             std::printf("PAR"); pReals(d.par); std::printf("\n");
             pvec("LAM", lam); pvec("UU", uu); pvec("UDOT", udot);
-            if (kind <= K_NOSLIP) {
+            if (isBodyKind(kind)) {
                 int anc = c.getAncestorMobilizedBody().getMobilizedBodyIndex();
                 const MobilizedBody& A = m.getMobilizedBody(MobilizedBodyIndex(anc));
                 pBK("ANC", anc, A.getBodyTransform(s), A.getBodyVelocity(s), AG[anc]);
@@ -78,7 +89,7 @@ int main(int argc, char** argv) {
             Vector pvaerr; m.calcConstraintAccelerationErrors(s, udot, pvaerr); pvec("OUT AERR", slice(pvaerr));
             Vector_<SpatialVec> FA; Vector mobF; c.calcConstraintForcesFromMultipliers(s, lam, FA, mobF);
             for (int i = 0; i < FA.size(); ++i) { std::printf("OUT FA %d", (int)c.getMobilizedBodyFromConstrainedBody(ConstrainedBodyIndex(i)).getMobilizedBodyIndex()); psv(FA[i]); std::printf("\n"); }
-            if (kind > K_NOSLIP) {
+            if (!isBodyKind(kind)) {
                 // mobility forces are per constrained u of this constraint: report them scattered into a full u vector through G^T
                 pvec("OUT MOBF", mobF);
             }
